@@ -47,6 +47,8 @@ type Val struct {
 	Fn    *Closure
 	Lin   *Lin
 	DynT  types.Type // known dynamic type of an interface value
+	OT    types.Type // original named type of a converted constant (flag words)
+	OC    constant.Value // value before the conversion truncated it
 }
 
 type Closure struct {
@@ -315,6 +317,7 @@ type Interp struct {
 	NoInline    func(f *types.Func) bool
 	pureGetter  map[*types.Func]int
 	purePred    map[*types.Func]bool
+	getterMarked map[*types.Func]bool
 	Trace       bool
 	Entry       string
 	loopForms   []*LoopForm
@@ -1161,7 +1164,7 @@ func (in *Interp) forStmt(s *ast.ForStmt, st *State, fr *frame, c ctl, next func
 const maxUnroll = 64
 
 func (in *Interp) tryUnrollFor(s *ast.ForStmt, st *State, fr *frame, c ctl, next func(*State), iter int) {
-	if s.Cond != nil && iter <= maxUnroll {
+	if s.Cond != nil && iter <= maxUnroll && in.constCond(s.Cond, st, fr) {
 		if v, ok := in.pureEval(s.Cond, st, fr); ok {
 			if b, isb := v.isBool(); isb {
 				if !b {
@@ -1180,6 +1183,22 @@ func (in *Interp) tryUnrollFor(s *ast.ForStmt, st *State, fr *frame, c ctl, next
 		// the condition was decidable before and no longer is: treat the rest abstractly
 	}
 	in.summarizeLoop(s, s.Body, s.Post, nil, Val{}, in.loopKey(s, st, fr), st, fr, c, next)
+}
+
+// constCond: the loop condition compares constants only (so that unrolling is exact, never a
+// partial unrolling driven by an assumed atom).
+func (in *Interp) constCond(e ast.Expr, st *State, fr *frame) bool {
+	be, ok := ast.Unparen(e).(*ast.BinaryExpr)
+	if !ok {
+		return false
+	}
+	for _, side := range []ast.Expr{be.X, be.Y} {
+		v, ok := in.pureEval(side, st, fr)
+		if !ok || v.K != KConst {
+			return false
+		}
+	}
+	return true
 }
 
 // loopKey derives a canonical key for the iteration count of a for loop (i < bound).
